@@ -129,6 +129,9 @@ def gen_grammar(rng: random.Random, cfg: GenCfg | None = None, depth: int = 3):
     nrules = rng.randint(1, cfg.max_rules)
     names = ['start'] + rng.sample(RULE_NAMES[1:], nrules - 1)
     names = [n if not (n[0].islower() and rng.random() < cfg.upper_rules and n != 'start') else n.upper() for n in names]
+    if len(names) >= 3 and rng.random() < 0.2:
+        # twin names: rules that differ only by underscores
+        names[2] = rng.choice(['_' + names[1], names[1] + '_', '_' + names[1] + '_'])
     rules = []
     for i, name in enumerate(names):
         fwd = names[i + 1:]
@@ -274,10 +277,11 @@ def nodes(e) -> int:
 def lrec_grammar(rng: random.Random):
     """Layered expression grammars with direct, aliased, mutual, optional-prefixed and named left recursion,
     mixed with right recursion and unary prefixes. Returns (grammar, kind)."""
-    kind = rng.choice(['direct', 'direct2', 'aliased', 'mutual', 'optprefix', 'named', 'rightmix', 'unary', 'layered'])
+    kind = rng.choice(['direct', 'direct2', 'aliased', 'mutual', 'optprefix', 'named', 'rightmix', 'unary', 'layered', 'prefix2', 'prefix2'])
     num = ('pat', r'\d+')
     ident = ('pat', r'[a-z]+')
-    atom = ('choice', [num, ident, ('seq', [('tok', '('), ('call', 'expr'), ('tok', ')')])]) if rng.random() < 0.5 else num
+    paren = [('tok', '('), 'cut', ('call', 'expr'), ('tok', ')')] if rng.random() < 0.4 else [('tok', '('), ('call', 'expr'), ('tok', ')')]
+    atom = ('choice', [num, ident, ('seq', paren)]) if (rng.random() < 0.5 or kind == 'prefix2') else num
     op1 = rng.choice(['+', '-'])
     op2 = rng.choice(['*', '/'])
     rules = []
@@ -288,6 +292,11 @@ def lrec_grammar(rng: random.Random):
         rules = [('expr', [], ('choice', [('seq', [('call', 'expr'), ('tok', op1), ('call', 'term')]),
                                           ('seq', [('call', 'expr'), ('tok', '-' if op1 == '+' else '+'), ('call', 'term')]),
                                           ('call', 'term')])),
+                 ('term', [], atom)]
+    elif kind == 'prefix2':
+        # two alternatives with a common left-recursive prefix: the longer one fails late (after a nested expr)
+        rules = [('expr', [], ('choice', [('seq', [('call', 'expr'), ('tok', op1), ('call', 'term'), ('tok', '!')]),
+                                          ('seq', [('call', 'expr'), ('tok', op1), ('call', 'term')]), ('call', 'term')])),
                  ('term', [], atom)]
     elif kind == 'aliased':
         rules = [('expr', [], ('call', 'e')),
@@ -323,7 +332,7 @@ def lrec_grammar(rng: random.Random):
 
 
 def lrec_inputs(rng: random.Random, n: int, maxlen=7):
-    toks = ['1', '2', 'x', '+', '-', '*', '/', '^', '(', ')']
+    toks = ['1', '2', 'x', '+', '-', '*', '/', '^', '(', ')', '!']
     out = ['']
     while len(out) < n:
         r = rng.random()
@@ -331,9 +340,11 @@ def lrec_inputs(rng: random.Random, n: int, maxlen=7):
         if r < 0.7:
             s = []
             for i in range(k):
-                s.append(rng.choice(['1', '2', 'x', '(1)']) if i % 2 == 0 else rng.choice(['+', '-', '*', '/', '^']))
+                s.append(rng.choice(['1', '2', 'x', '(1)', '(2)', '(1+2)', '(x-1)']) if i % 2 == 0 else rng.choice(['+', '-', '*', '/', '^']))
             if rng.random() < 0.2:
                 s.insert(0, '-')
+            if rng.random() < 0.25:
+                s.append('!')
             t = rng.choice(['', ' ']).join(s)
         else:
             t = ''.join(rng.choice(toks) for _ in range(k))
